@@ -3,6 +3,7 @@ mod c03z;
 mod c05;
 mod c06;
 mod c07;
+mod c07r;
 mod c10;
 mod c11;
 mod c12;
